@@ -3,6 +3,7 @@ CONSTANTS
   EnforceMethods = TRUE
   EnforceSessMarker = TRUE
   EnforceTrkMarker = TRUE
+  SessionEndRule = "ignore"
 INIT Init
 NEXT Next
 INVARIANTS
@@ -14,6 +15,10 @@ INVARIANTS
   TrackerRefusesSessionTokens
   ExposesExactlyTheAssertion
   GateOnlyWithValue
+  NothingLengthensTheSession
+  FreshBeforeEveryEndAuthenticates
+  LifeExposesExactlyTheAssertion
   EmitTok
   EmitMap
+  EmitLife
 CHECK_DEADLOCK FALSE
